@@ -96,6 +96,17 @@ pub struct Ars<'a, F: PrimeField> {
     undo: Vec<((usize, usize), F)>,
     budget_nodes: usize,
     max_changed: usize,
+    /// instance cells may change with their copy class (seed-move attacks: the forged public
+    /// inputs are read back afterwards)
+    free_instance: bool,
+    undo_inst: Vec<((usize, usize), F)>,
+    /// try the free cells of a violated constraint in "forward" order (later rows first): the
+    /// natural output of a gate usually sits on the same or the next row
+    prefer_forward: bool,
+    /// synthesis order of the advice assignments ([col][row] -> ordinal, u32::MAX = never
+    /// assigned), from the recorded trace: the cell of a constraint that was assigned LAST is its
+    /// natural output, and recomputing outputs in dataflow order repairs forward without search
+    order: Vec<Vec<u32>>,
 }
 
 fn adv_queries<F: PrimeField>(e: &Expression<F>) -> Vec<(usize, i32)> {
@@ -119,6 +130,10 @@ fn adv_queries<F: PrimeField>(e: &Expression<F>) -> Vec<(usize, i32)> {
 
 impl<'a, F: PrimeField> Ars<'a, F> {
     pub fn new(t: &'a mut Tables<F>) -> Self {
+        Self::new_with(t, false)
+    }
+
+    pub fn new_with(t: &'a mut Tables<F>, free_instance: bool) -> Self {
         let mut polys = vec![];
         for g in t.cs.gates() {
             for p in g.polynomials() {
@@ -162,12 +177,26 @@ impl<'a, F: PrimeField> Ars<'a, F> {
             for m in &members {
                 class_of.insert(m.clone(), id);
                 match m {
-                    CellRef::Fixed(..) | CellRef::Instance(..) => pin = Some(t.get(m)),
+                    CellRef::Fixed(..) => pin = Some(t.get(m)),
+                    CellRef::Instance(..) if !free_instance => pin = Some(t.get(m)),
                     _ => {}
                 }
             }
             classes.push(members);
             pinned.push(pin);
+        }
+        let mut order: Vec<Vec<u32>> = vec![];
+        if !t.trace.is_empty() {
+            order = vec![vec![u32::MAX; t.n]; t.advice.len()];
+            let mut i = 0u32;
+            for e in &t.trace {
+                if let super::ref_eval::Event::AssignAdvice { column, row } = e {
+                    if *column < order.len() && *row < t.n {
+                        order[*column][*row] = i;
+                        i += 1;
+                    }
+                }
+            }
         }
         let nl = lookups.len();
         Ars {
@@ -184,6 +213,20 @@ impl<'a, F: PrimeField> Ars<'a, F> {
             undo: vec![],
             budget_nodes: 0,
             max_changed: 0,
+            free_instance,
+            undo_inst: vec![],
+            prefer_forward: false,
+            order,
+        }
+    }
+
+    fn ord(&self, c: &(usize, usize)) -> u32 {
+        let o = self.order.get(c.0).and_then(|col| col.get(c.1)).copied().unwrap_or(u32::MAX);
+        // never-assigned cells are the least natural outputs
+        if o == u32::MAX {
+            0
+        } else {
+            o + 1
         }
     }
 
@@ -200,6 +243,13 @@ impl<'a, F: PrimeField> Ars<'a, F> {
             if l.table_queries.iter().any(|(c, _)| *c == cell.0) {
                 self.table_sets[li] = None;
             }
+        }
+    }
+
+    fn rollback_instance(&mut self, mark: usize) {
+        while self.undo_inst.len() > mark {
+            let ((c, r), old) = self.undo_inst.pop().unwrap();
+            self.t.instance[c][r] = old;
         }
     }
 
@@ -233,12 +283,22 @@ impl<'a, F: PrimeField> Ars<'a, F> {
                 }
                 let members = self.classes[id].clone();
                 for m in members {
-                    if let CellRef::Advice(c, r) = m {
-                        if self.t.advice[c][r] != v {
-                            self.set_adv((c, r), v);
-                        } else {
-                            self.changed.insert((c, r));
+                    match m {
+                        CellRef::Advice(c, r) => {
+                            if self.t.advice[c][r] != v {
+                                self.set_adv((c, r), v);
+                            } else {
+                                self.changed.insert((c, r));
+                            }
                         }
+                        CellRef::Instance(c, r) if self.free_instance => {
+                            let old = self.t.instance[c][r];
+                            if old != v {
+                                self.undo_inst.push(((c, r), old));
+                                self.t.instance[c][r] = v;
+                            }
+                        }
+                        _ => {}
                     }
                 }
                 true
@@ -381,13 +441,27 @@ impl<'a, F: PrimeField> Ars<'a, F> {
                 self.stats.dead_ends_unsolvable += 1;
                 return false;
             }
-            if best.as_ref().map(|b| free.len() < b.1.len()).unwrap_or(true) {
+            let better = if self.prefer_forward && !self.order.is_empty() {
+                // dataflow order: the constraint whose natural output was assigned earliest
+                let key = |f: &Vec<(usize, usize)>| f.iter().map(|c| self.ord(c)).max().unwrap_or(0);
+                best.as_ref().map(|b| key(&free) < key(&b.1)).unwrap_or(true)
+            } else {
+                best.as_ref().map(|b| free.len() < b.1.len()).unwrap_or(true)
+            };
+            if better {
                 best = Some((con.clone(), free));
             }
         }
         let (con, mut free) = best.unwrap();
-        free.shuffle(rng);
+        if self.prefer_forward && !self.order.is_empty() {
+            free.sort_by_key(|c| std::cmp::Reverse(self.ord(c)));
+        } else if self.prefer_forward {
+            free.sort_by_key(|c| std::cmp::Reverse((c.1, c.0)));
+        } else {
+            free.shuffle(rng);
+        }
         let mark = self.undo.len();
+        let mark_inst = self.undo_inst.len();
         let changed_before = self.changed.clone();
         match con {
             Con::Poly(pi, row) => {
@@ -406,6 +480,7 @@ impl<'a, F: PrimeField> Ars<'a, F> {
                             self.stats.dead_ends_pinned += 1;
                         }
                         self.rollback(mark, &changed_before);
+                        self.rollback_instance(mark_inst);
                         if self.stats.nodes as usize > self.budget_nodes {
                             return false;
                         }
@@ -452,6 +527,7 @@ impl<'a, F: PrimeField> Ars<'a, F> {
                         return true;
                     }
                     self.rollback(mark, &changed_before);
+                    self.rollback_instance(mark_inst);
                     if self.stats.nodes as usize > self.budget_nodes {
                         return false;
                     }
@@ -474,10 +550,33 @@ pub fn attack<F: PrimeField>(
     budget: &ArsBudget,
     rng: &mut ChaCha8Rng,
 ) -> (Option<Attack<F>>, ArsStats) {
+    attack_with(tables, target_instance, seeds, budget, rng, false)
+}
+
+/// Seed-move attack with a FREE instance: instance cells follow their copy class, so after a
+/// successful repair `tables.instance` holds the public inputs the forged assignment binds.
+pub fn attack_free<F: PrimeField>(
+    tables: &mut Tables<F>,
+    seeds: &[((usize, usize), F)],
+    budget: &ArsBudget,
+    rng: &mut ChaCha8Rng,
+) -> (Option<Attack<F>>, ArsStats) {
+    attack_with(tables, &[], seeds, budget, rng, true)
+}
+
+fn attack_with<F: PrimeField>(
+    tables: &mut Tables<F>,
+    target_instance: &[(usize, usize, F)],
+    seeds: &[((usize, usize), F)],
+    budget: &ArsBudget,
+    rng: &mut ChaCha8Rng,
+    free_instance: bool,
+) -> (Option<Attack<F>>, ArsStats) {
     let honest_advice = tables.advice.clone();
     let honest_instance = tables.instance.clone();
     let mut total = ArsStats::default();
-    let mut depth = 2usize;
+    // seed-move attacks repair forward through everything downstream: no iterative deepening
+    let mut depth = if free_instance { budget.max_changed } else { 2usize };
     for _restart in 0..budget.restarts {
         // fresh state
         tables.advice = honest_advice.clone();
@@ -485,7 +584,8 @@ pub fn attack<F: PrimeField>(
         for (c, r, v) in target_instance {
             tables.instance[*c][*r] = *v;
         }
-        let mut ars = Ars::new(tables);
+        let mut ars = Ars::new_with(tables, free_instance);
+        ars.prefer_forward = _restart % 2 == 0;
         ars.budget_nodes = budget.nodes_per_restart;
         ars.max_changed = depth;
         // instance changes force their copy classes
